@@ -25,6 +25,10 @@ def run(ctx, R, tier):
     payload_verbatim(F, R, rule='B.C19.payload', fn_filter=lambda q: q.startswith('clock::'), floor=3)
     pair_published(F, R)
     no_chunk_end_blend(F, R)
+    # 'the three clock-speed units convert consistently': a clock starts from the speed it was configured with, in its own unit
+    from .c06 import config_verbatim
+    config_verbatim(F, R, rule='B.C19.config', fn_filter=lambda q: q.startswith('clock::'), floor=2)
+    from_ticks(F, R)
     # 'clock-time arithmetic keeps the fraction in [0, 1)': so does the fraction a handle reads (published at full width)
     from .c05 import published_width
     published_width(F, R, rule='B.C19.published', fn_filter=lambda q: q.startswith('clock::'), floor=4)
@@ -298,6 +302,20 @@ def cmp_(F, R):
             why = 'a path does not compare the clocks'
     R.check(ok and seen == {'different-clock', 'equal-ticks', 'ticks'}, 'B.C19.cmp', 'partial_cmp', why or 'branches %s' % sorted(seen),
             detail={'branches': sorted(seen)}, where=b.file)
+
+
+def from_ticks(F, R, rule='B.C19.frac'):
+    """`ClockTime::from_ticks_f64` clamps first and splits afterwards: ticks and fraction are the whole and the fractional part
+    of `max(ticks, 0.0)` - one number.  (Routing a negative amount through the subtraction operator saturates the ticks and
+    keeps a fraction: a time before the clock's start becomes a time inside its first tick.)"""
+    b = F.body('clock::time::ClockTime::from_ticks_f64')
+    if not R.check(b is not None, rule, 'anchor:from_ticks_f64', 'ClockTime::from_ticks_f64 not found'):
+        return
+    rets = [str(p.ret) for p in explore(b) if p.end == 'return']
+    m = 'core::f64::<impl f64>::max(ticks, 0.0)'
+    ok = len(rets) == 1 and rets[0] == 'clock::time::ClockTime::ClockTime(std::convert::Into::into(clock), %s, std::f64::<impl f64>::fract(%s))' % (m, m)
+    R.check(ok, rule, 'from_ticks_f64', 'ClockTime::from_ticks_f64 returns %s, not {ticks: max(t, 0) as u64, fraction: fract(max(t, 0))}' % [r[:160] for r in rets],
+            detail={'returns': rets[:1]})
 
 
 def no_chunk_end_blend(F, R, rule='B.C19.db'):
